@@ -90,7 +90,7 @@ MARKERS = ('<deleted>', '<dead>', '<noparent>')
 
 def _c(uid, nin, nout, **kw):
   s = {'uid': uid, 'ph': False, 'nin': nin, 'nout': nout, 'k': 1, 'wires': [], 'mport': False, 'caller': None, 'items': [],
-       'conns': [], 'consts': [], 'uu': [], 'rdu': [], 'wru': [], 'mcs': []}
+       'conns': [], 'consts': [], 'uu': [], 'rdu': [], 'wru': [], 'mcs': [], 'rin': False}
   s.update(kw)
   return s
 
@@ -238,6 +238,18 @@ def directed():
              {'path': ['c0', 'e0[0][0]'], 'new': lst(9187, plain_leaf(9188), plain_leaf(9189), ['d0[0]', 'd0[1]']), 'mode': 'obj'},
              {'path': ['c0', 'e0[0][0]', 'd0[0]'], 'new': plain_leaf(9190), 'mode': 'obj'},
              {'path': ['c0', 'e0[1][0]'], 'new': plain_leaf(9191), 'mode': 'cls'}], {}))
+  # 19. an ordinary 1-bit input of the replaced child (sync clear of a register) tied by the parent to its own reset / clk,
+  #     list elements at depth 2; the simulation pulses reset mid-run
+  def acc(uid): return _c(uid, 1, 1, rin=True, wires=['w0'], items=[_b('b0', 'ff', [R('in0'), R('w0')], [R('w0')], rin=True),
+                                                                     _b('b1', 'comb', [R('w0')], [R('out0')])])
+  mid = _c(9201, 1, 1, items=[_k('d0[0]', acc(9202)), _k('d0[1]', acc(9203))],
+           conns=[[R('d0[0]', 'in0'), R('in0')], [R('d0[1]', 'in0'), R('d0[0]', 'out0')], [R('out0'), R('d0[1]', 'out0')],
+                  [R('d0[0]', 'rin'), R('reset')], [R('clk'), R('d0[1]', 'rin')]])
+  top = _c(9200, 1, 2, items=[_k('c0', mid), _k('c1', acc(9204))],
+           conns=[[R('c0', 'in0'), R('in0')], [R('out0'), R('c0', 'out0')], [R('c1', 'in0'), R('in0')], [R('out1'), R('c1', 'out0')],
+                  [R('reset'), R('c1', 'rin')]])
+  D.append(('reset-tied-port', top, [{'path': ['c0', 'd0[0]'], 'new': acc(9205), 'mode': 'cls'}, {'path': ['c1'], 'new': acc(9206), 'mode': 'obj'},
+                                     {'path': ['c0', 'd0[1]'], 'new': acc(9207), 'mode': 'obj'}, {'path': ['c0', 'd0[0]'], 'new': acc(9208), 'mode': 'obj'}], {}))
   return D
 
 # ----------------------------------------------------------------------------------------------- one case
@@ -352,7 +364,8 @@ def sim_trace(t, spec, inputs):
   t.apply(DefaultPassGroup())
   t.sim_reset()
   tr = []
-  for row in inputs:
+  for c, row in enumerate(inputs):
+    t.reset @= 1 if c == 2 else 0          # reset is pulsed in mid-run: ports tied to it by a parent must follow
     for j in range(spec['nin']): getattr(t, f'in{j}').__imatmul__(Bits8(row[j]))
     t.sim_tick()
     tr.append({n: int(U.get_obj(t, n.split('.')[1:])) for n in names})
@@ -580,7 +593,7 @@ def random_case(rng, g, idx):
     called = any(r[0] == [path[-1]] for it in parent['items'] if it['t'] == 'blk' for r in it.get('mcalls', [])) or \
              parent.get('caller') == [path[-1]]
     new = g.spec(old['nin'], old['nout'], rng.choice([0, 0, 1, 2]) if len(path) < 3 else 0,
-                 k=old['k'] if mode == 'cls' else None, mport=True if called else None)
+                 k=old['k'] if mode == 'cls' else None, mport=True if called else None, rin=bool(old.get('rin')))
     steps.append({'path': list(path), 'new': new, 'mode': mode})
     cur = U.subst(cur, path, new)
   inputs = [[rng.randint(0, 255) for _ in range(spec['nin'])] for _ in range(5)]
